@@ -57,16 +57,21 @@ def eq(x, k):
 
 
 def shapes(quick=True):
-    """hand-written shapes named by the property: guards over one/two finite variables, guard
+    """(goals wrapped in more(...) are analysed in the thorough tier only: Polar's limit_seq on central moments /
+    cumulants of longer closed forms takes minutes)
+    hand-written shapes named by the property: guards over one/two finite variables, guard
     combined with a first-level if (collapse), a.s. termination and termination with
     probability < 1, exit expectations that are finite, constant, or divergent.
     Each entry: (program, goals, tag); goals are ('E', mono) | ('c', k, mono) | ('k', k, mono)"""
     out = []
     F = Fraction
+
+    def more(*gs):
+        return [] if quick else list(gs)
     # geometric stop, counter
     out.append(({"types": [], "init": [asg("x", c(0)), asg("y", c(0))], "guard": eq("x", 0),
                  "body": [bern("x", F(1, 2)), asg("y", ("add", v("y"), c(1)))]},
-                [("E", {"y": 1}), ("E", {"y": 2}), ("c", 2, {"y": 1}), ("k", 2, {"y": 1}), ("E", {"x": 1})], "geometric+counter"))
+                [("E", {"y": 1}), ("E", {"y": 2}), ("k", 2, {"y": 1}), ("E", {"x": 1})] + more(("c", 2, {"y": 1})), "geometric+counter"))
     # the collapse witness of DESIGN section 6 (#10)
     out.append(({"types": [], "init": [asg("x", c(0)), bern("c", F(1, 2))], "guard": eq("x", 0),
                  "body": [("if", [(eq("c", 1), [bern("x", F(1, 2))])], None)]},
@@ -74,7 +79,7 @@ def shapes(quick=True):
     # its non-collapsed twin: terminates with probability 1/2
     out.append(({"types": [], "init": [asg("x", c(0)), asg("y", c(0)), bern("c", F(1, 2))], "guard": eq("x", 0),
                  "body": [asg("y", ("add", v("y"), c(1))), ("if", [(eq("c", 1), [bern("x", F(1, 2))])], None)]},
-                [("E", {"x": 1}), ("E", {"y": 1}), ("E", {"c": 1}), ("c", 2, {"y": 1})], "terminates-with-prob-1/2"))
+                [("E", {"x": 1}), ("E", {"y": 1}), ("E", {"c": 1})] + more(("c", 2, {"y": 1})), "terminates-with-prob-1/2"))
     # collapse with a second shape: nested single ifs
     out.append(({"types": [], "init": [asg("x", c(0)), bern("c", F(1, 3)), bern("d", F(1, 2))], "guard": eq("x", 0),
                  "body": [("if", [(eq("c", 1), [("if", [(eq("d", 1), [bern("x", F(1, 2))])], None)])], None)]},
@@ -83,11 +88,11 @@ def shapes(quick=True):
     out.append(({"types": [], "init": [asg("x", c(0)), asg("z", c(0)), asg("y", c(0))],
                  "guard": ("not", ("and", eq("x", 1), eq("z", 1))),
                  "body": [bern("x", F(1, 2)), bern("z", F(1, 3)), asg("y", ("add", v("y"), v("x")))]},
-                [("E", {"y": 1}), ("E", {"x": 1, "z": 1}), ("k", 2, {"y": 1})], "two-variable-guard"))
+                [("E", {"y": 1}), ("E", {"x": 1, "z": 1})] + more(("k", 2, {"y": 1})), "two-variable-guard"))
     out.append(({"types": [], "init": [asg("x", c(0)), bern("z", F(1, 2)), asg("y", c(1))],
                  "guard": ("and", eq("x", 0), eq("z", 1)),
                  "body": [bern("x", F(1, 4)), asg("y", ("add", v("y"), c(2)))]},
-                [("E", {"y": 1}), ("E", {"y": 1, "z": 1}), ("c", 2, {"y": 1})], "two-variable-guard+stopped-at-0"))
+                [("E", {"y": 1}), ("E", {"y": 1, "z": 1})] + more(("c", 2, {"y": 1})), "two-variable-guard+stopped-at-0"))
     # guard with an inequality over a three-valued variable, two-stage chain (n*r^n terms)
     out.append(({"types": [], "init": [asg("s", c(0)), asg("y", c(0))], "guard": ("atom", v("s"), "<", c(2)),
                  "body": [asg("y", ("add", v("y"), v("s"))),
@@ -98,7 +103,7 @@ def shapes(quick=True):
     out.append(({"types": [], "init": [asg("a", c(0)), asg("b", c(0)), asg("y", c(0))], "guard": eq("b", 0),
                  "body": [asg("y", ("add", v("y"), c(1))),
                           ("if", [(eq("a", 0), [bern("a", F(1, 2))])], [bern("b", F(1, 2))])]},
-                [("E", {"y": 1}), ("c", 2, {"y": 1}), ("E", {"a": 1, "y": 1})], "two-stage-flags"))
+                [("E", {"y": 1}), ("E", {"a": 1, "y": 1})] + more(("c", 2, {"y": 1})), "two-stage-flags"))
     # already stopped at the start with probability 1/2
     out.append(({"types": [], "init": [bern("x", F(1, 2)), asg("y", c(0))], "guard": eq("x", 0),
                  "body": [bern("x", F(1, 3)), asg("y", ("add", v("y"), c(2)))]},
@@ -106,7 +111,7 @@ def shapes(quick=True):
     # exit value depends on the exit state (non-constant exit expectation)
     out.append(({"types": [], "init": [asg("s", c(0)), asg("y", c(0))], "guard": eq("s", 0),
                  "body": [choice("s", [(F(1, 2), c(0)), (F(1, 6), c(1)), (F(1, 3), c(2))]), asg("y", ("add", v("y"), v("s")))]},
-                [("E", {"s": 1}), ("E", {"s": 2}), ("c", 2, {"s": 1}), ("E", {"y": 1})], "exit-state-dependent"))
+                [("E", {"s": 1}), ("E", {"s": 2}), ("E", {"y": 1})] + more(("c", 2, {"s": 1})), "exit-state-dependent"))
     # divergent exit expectations
     out.append(({"types": [], "init": [asg("x", c(0)), asg("y", c(1))], "guard": eq("x", 0),
                  "body": [asg("y", ("mul", c(2), v("y"))), bern("x", F(1, 2))]},
@@ -593,15 +598,21 @@ def run(ctx):
     N = ctx.pick(8, 10)         # exact comparison of the conditional sequence: Polar at n = 1..N+1
     NF = ctx.pick(24, 40)       # far horizon for the limit (validation)
     n_prog = ctx.pick(20, 150)
-    progs = shapes(ctx.quick)
-    n_shapes = len(progs)
-    progs += gen_programs(ctx, max(0, n_prog - len(progs)))
+    base = shapes(ctx.quick)
+    n_shapes = len(base)
+    base += gen_programs(ctx, max(0, n_prog - len(base)))
+    # one Polar task per (program, goal): Polar's own limit_seq dominates the cost, goals run in parallel
+    progs, is_shape = [], []
+    for pi, (p, goals, tag) in enumerate(base):
+        for g in goals:
+            progs.append((p, [g], tag))
+            is_shape.append(pi < n_shapes)
     tasks = [{"kind": "afterloop", "text": P.prog_text(p), "goals": [goal_text(g) for g in goals], "nvals": N + 2,
-              "timeout": 150} for p, goals, _ in progs]
+              "timeout": ctx.pick(170, 400)} for p, goals, _ in progs]
     import time as _time
     phases = {"props_s": round(ctx.elapsed(), 1)}
     _t = _time.time()
-    results = lib.run_tasks(tasks, timeout=150)
+    results = lib.run_tasks(tasks, timeout=ctx.pick(170, 400))
     phases["polar_s"] = round(_time.time() - _t, 1)
     errs, feats = {}, {}
     live = []
@@ -613,7 +624,9 @@ def run(ctx):
             k = r.get("etype") or r.get("error") or r["exception"]["etype"]
             key = f"{r.get('stage', 'task')}:{k}"
             errs[key] = errs.get(key, 0) + 1
-            if i < n_shapes:
+            if r.get("error") in ("timeout", "crash"):
+                continue    # inconclusive (machine load / sympy's limit_seq): counted, never a verdict
+            if is_shape[i]:
                 ctx.violation(f"refused:{tag}:{key}", {"program_text": P.prog_text(p), "result": r},
                               f"the --after_loop path fails on the hand-written shape '{tag}' ({key}: "
                               f"{(r.get('exception') or {}).get('msg', r.get('msg', ''))[:200]})\n{P.prog_text(p)}")
@@ -726,6 +739,7 @@ def run(ctx):
     stat = {"cond_seq_agree": 0, "numden_agree": 0, "exit_validated_all_n": 0, "exit_unsupported": 0, "limit_proved_shape": 0,
             "limit_validated_far": 0, "limit_not_taken": 0, "divergent_reported_infinite": 0, "undefined_at_n": 0}
     pending_b = []
+    model_reported = set()
     for i in live:
         p, goals, tag = progs[i]
         r = results[i]
@@ -733,7 +747,8 @@ def run(ctx):
         ex = exact.get(i)
         ms = ometa[i]["ms"]
         has_aux = r.get("original_loop_guard") is not None and any(x.startswith("_old") for x in cond_dump_vars(r["original_loop_guard"]))
-        if ex is not None and ex["model_agree"] is False:
+        if ex is not None and ex["model_agree"] is False and text not in model_reported:
+            model_reported.add(text)
             ctx.violation(f"stored-guard-model:{text}", {"program_text": text, "original_loop_guard": r.get("original_loop_guard_text")},
                           f"program.original_loop_guard ({r.get('original_loop_guard_text')}) is not the condition the model "
                           f"AfterLoop.stored_guard predicts (guard & collapsed first-level conditions) on the typed states\n{text}",
@@ -744,7 +759,7 @@ def run(ctx):
             if "exception" in gr:
                 key = f"{gr.get('stage')}:{gr['exception']['etype']}"
                 errs[key] = errs.get(key, 0) + 1
-                if i < n_shapes:
+                if is_shape[i]:
                     ctx.violation(f"refused:{tag}:{gname}:{key}", {"program_text": text, "goal": gname, "result": gr},
                                   f"{gname} --after_loop fails on the hand-written shape '{tag}' ({key}: {gr['exception']['msg'][:200]})\n{text}")
                 continue
@@ -792,7 +807,7 @@ def run(ctx):
             # numerator / denominator against the exact ones, and ratio consistency
             nd_ok = True
             for k, part in sorted(gr.get("parts", {}).items()):
-                if "num_values" not in part:
+                if "num_values" not in part or bad is not None:
                     continue
                 col = 1 + ms.index(mono_pow(goal_mono(g), int(k)))
                 for n in range(1, N + 2):
@@ -916,7 +931,7 @@ def run(ctx):
             ctx.sample({"program": text, "goal": gname, "printed": shown, "conditional_sequence_n1..": gr.get("cond_values", [])[1:6],
                         "exact_n0..": [str(ratio_rows(exact[b["i"]]["rows"], ometa[b["i"]]["ms"], b["g"], n)) for n in range(0, 5)],
                         "limit_from_validated_closed_forms": str(exp[1]) if exp[0] == "val" else "infinite"})
-    ctx.coverage["rule"] = (f"{n_shapes} hand-written guarded shapes (one/two-variable guards, inequality guard, collapse of a first-level if, "
+    ctx.coverage["rule"] = (f"one case = (program, goal); {n_shapes} hand-written guarded shapes (one/two-variable guards, inequality guard, collapse of a first-level if, "
                             "termination a.s. / with probability < 1 / already at the start, constant / state-dependent / divergent exit "
                             "expectations) + programs from harness/gen.py with guard=True (no multi-assignment); goals: raw moments of degree <= 3, "
                             f"c2, k2; Polar's conditional sequence at n = 1..{N + 1} vs the exact conditional moments of the SOURCE program "
@@ -926,8 +941,9 @@ def run(ctx):
     ctx.coverage["feature_histogram"] = feats
     ctx.coverage["polar_errors"] = errs
     ctx.coverage["comparison_status"] = stat
-    ctx.coverage["input_distribution"] = {"programs": len(progs), "analysed": len(live), "hand_written": n_shapes,
-                                          "generated": len(progs) - n_shapes, "N": N, "N_far": NF}
+    ctx.coverage["input_distribution"] = {"programs": len(base), "goal_tasks": len(progs), "analysed_goal_tasks": len(live),
+                                          "hand_written_programs": n_shapes, "generated_programs": len(base) - n_shapes,
+                                          "inconclusive_timeouts": errs.get("task:timeout", 0), "N": N, "N_far": NF}
     ctx.coverage["trusted_base"] += [
         "harness/progast.py printers (the same AST is printed as Polar text and as a Coq term)",
         "harness/tasks_afterloop.py (arguments built by Polar's own ArgumentParser; goals handled by the real GoalsAction.handle_*_goal)",
